@@ -76,6 +76,7 @@ SomeLimits  == {<<5, 3, 2>>, <<4, 3, 2>>, <<3, 3, 2>>, <<5, 2, 2>>, <<5, 3, 0>>}
 OneLimit    == {<<4, 3, 2>>, <<3, 3, 2>>}
 AllLimWhere == Chains \X (Chains \cup {"own"})
 OnlyBA      == {<<"B", "A">>}                        \* B limits the wrapped token of A's origin
+OnlyAown    == {<<"A", "own">>}                      \* A limits its own token coming back
 
 (* Time-based supply limit of one token (endpoint.limits): while it is on, an arriving transfer of that token is refused *)
 (* unless min <= amount <= max and the amounts let in during the current period, this one included, stay BELOW cap;   *)
